@@ -395,7 +395,11 @@ func (sc *vmScenario) methodBody(c *vmCtrl, r *vmReq) {
 		s = c.scope
 	}
 	r.arrive()
-	r.log(fmt.Sprintf("call:%s:%s", r.name(s), liveStr(sc.live(s))))
+	who := r.name(s)
+	if c != nil && c.rq != r { // a scoped instance constructed for another request
+		who = "x"
+	}
+	r.log(fmt.Sprintf("call:%s:%s", who, liveStr(sc.live(s))))
 }
 
 const (
